@@ -1,1 +1,26 @@
 """Property-specific generation / extra steps, called by check.py by name."""
+import os, sys, subprocess
+VERIF = os.path.dirname(os.path.dirname(os.path.abspath(__file__)))
+sys.path.insert(0, os.path.join(VERIF, "tools"))
+
+
+def translate_invhash(chk=None):
+    """C19: regenerate PMH/Model/InvHashGen.lean from /repo/src/invhash.rs (written only if changed)."""
+    import translate_invhash as T
+    dst = os.path.join(VERIF, "lean", "PMH", "Model", "InvHashGen.lean")
+    try:
+        txt, nsteps = T.translate("/repo/src/invhash.rs")
+    except T.TErr as e:
+        return False, "translate_invhash.py: " + str(e)
+    old = open(dst).read() if os.path.exists(dst) else None
+    if old != txt:
+        open(dst, "w").write(txt)
+    if chk is not None:
+        chk.cov["translator"] = {"source": "/repo/src/invhash.rs", "steps": nsteps, "regenerated": old != txt}
+    return True, ""
+
+
+if __name__ == "__main__":
+    if len(sys.argv) > 1 and sys.argv[1] == "all":
+        ok, d = translate_invhash()
+        print("translate_invhash:", "ok" if ok else d)
